@@ -1,2 +1,6 @@
 pub mod c01;
 pub mod c12;
+pub mod c13;
+pub mod c15;
+pub mod c16;
+pub mod c14;
